@@ -65,6 +65,7 @@ var (
 	fontOnce    sync.Once
 	nonameBytes []byte
 	sharedFace  *canvas.FontFace
+	sharedSmall *canvas.FontFace // the same font object at another size
 )
 
 func repoDir() string {
@@ -92,6 +93,7 @@ func loadFonts() {
 			panic(err)
 		}
 		sharedFace = fam.Face(12.0, canvas.Black, canvas.FontRegular, canvas.FontNormal)
+		sharedSmall = fam.Face(7.0, canvas.Black, canvas.FontRegular, canvas.FontNormal)
 	})
 }
 
@@ -99,6 +101,19 @@ func textDump(t *canvas.Text) string {
 	var sb strings.Builder
 	t.WalkSpans(func(x, y float64, span canvas.TextSpan) {
 		fmt.Fprintf(&sb, "(%.9g,%.9g,%.9g,%q)", x, y, span.Width, span.Text)
+	})
+	return sb.String()
+}
+
+// textDumpGlyphs also lists the glyphs of every span (ids, advances, offsets).
+func textDumpGlyphs(t *canvas.Text) string {
+	var sb strings.Builder
+	t.WalkSpans(func(x, y float64, span canvas.TextSpan) {
+		fmt.Fprintf(&sb, "(%.9g,%.9g,%.9g,%q", x, y, span.Width, span.Text)
+		for _, g := range span.Glyphs {
+			fmt.Fprintf(&sb, " %d:%d,%d,%d,%d", g.ID, g.XAdvance, g.YAdvance, g.XOffset, g.YOffset)
+		}
+		sb.WriteString(")")
 	})
 	return sb.String()
 }
@@ -138,6 +153,36 @@ var Bodies = []Body{
 	{Name: "NewTextBox(shared font)", Run: func() string {
 		loadFonts()
 		return textDump(canvas.NewTextBox(sharedFace, "fi Vav-e a­b", 14, 0, canvas.Justify, canvas.Top, 0, 0))
+	}},
+	// the same string laid out in other ways with the same loaded font (anything remembered per font
+	// must be keyed by everything that decides the result)
+	{Name: "RichText VerticalRL upright (shared font, same string)", Hist: true, Run: func() string {
+		loadFonts()
+		rt := canvas.NewRichText(sharedFace)
+		rt.SetWritingMode(canvas.VerticalRL)
+		rt.SetTextOrientation(canvas.Upright)
+		rt.WriteString("fi Vav-e a­b")
+		return textDumpGlyphs(rt.ToText(0, 40, canvas.Left, canvas.Top, 0, 0))
+	}},
+	{Name: "RichText VerticalLR natural (shared font, same string)", Hist: true, Run: func() string {
+		loadFonts()
+		rt := canvas.NewRichText(sharedFace)
+		rt.SetWritingMode(canvas.VerticalLR)
+		rt.WriteString("fi Vav-e a­b")
+		return textDumpGlyphs(rt.ToText(0, 40, canvas.Left, canvas.Top, 0, 0))
+	}},
+	{Name: "NewTextLine+Glyphs+ToPath (shared font, same string, 7pt)", Hist: true, Run: func() string {
+		loadFonts()
+		s := textDumpGlyphs(canvas.NewTextLine(sharedSmall, "fi Vav-e a­b", canvas.Right))
+		for _, g := range sharedSmall.Glyphs("fi Vav-e a­b") {
+			s += fmt.Sprintf("[%d %d %d %d %d]", g.ID, g.XAdvance, g.YAdvance, g.XOffset, g.YOffset)
+		}
+		p, w, err := sharedSmall.ToPath("fi Vav")
+		return s + fmt.Sprintf("|%v %.9g %v", p, w, err)
+	}},
+	{Name: "NewTextBox(shared font, same string, left, narrow)", Hist: true, Run: func() string {
+		loadFonts()
+		return textDumpGlyphs(canvas.NewTextBox(sharedFace, "fi Vav-e a­b", 9, 0, canvas.Left, canvas.Top, 0, 0))
 	}},
 	{Name: "rasterizer.Draw", Run: func() string {
 		c := canvas.New(6, 6)
